@@ -138,7 +138,7 @@ impl Indexable for ast::BangOperator {
                 let predicate = values.get(2)?;
 
                 let list_typ = list.index(ctx)?;
-                let var_typ = list_typ.element_typ()?;
+                let var_typ = common::expect_element_typ(ctx, list, &list_typ)?;
 
                 let (var_name, var_define_loc) = match var.inner_values().next()?.simple_value() {
                     Some(ast::SimpleValue::Identifier(identifier)) => {
@@ -199,7 +199,7 @@ impl Indexable for ast::BangOperator {
 
                 let init_typ = init.index(ctx)?;
                 let list_typ = list.index(ctx)?;
-                let list_elm_typ = list_typ.element_typ()?;
+                let list_elm_typ = common::expect_element_typ(ctx, list, &list_typ)?;
 
                 let (acc_name, acc_define_loc) = match acc.inner_values().next()?.simple_value() {
                     Some(ast::SimpleValue::Identifier(identifier)) => {
@@ -239,7 +239,11 @@ impl Indexable for ast::BangOperator {
                 let expr = values.get(2)?;
 
                 let sequence_typ = sequence.index(ctx)?;
-                let var_typ = sequence_typ.element_typ()?;
+                let var_typ = match sequence_typ {
+                    // the arguments of a dag may be of any type
+                    Type::Dag => return None,
+                    _ => common::expect_element_typ(ctx, sequence, &sequence_typ)?,
+                };
 
                 let (var_name, var_define_loc) = match var.inner_values().next()?.simple_value() {
                     Some(ast::SimpleValue::Identifier(identifier)) => {
@@ -873,6 +877,25 @@ mod common {
             .into_iter()
             .map(|value| (value.syntax().text_range(), value.index(ctx)))
             .collect()
+    }
+
+    /// The type of the elements that `!foreach`, `!filter` and `!foldl` iterate over. A value
+    /// that is not a sequence is reported; a type that could not be computed is no evidence.
+    pub(super) fn expect_element_typ(
+        ctx: &mut super::IndexCtx,
+        value: &ast::Value,
+        typ: &Type,
+    ) -> Option<Type> {
+        let element_typ = typ.element_typ();
+        if element_typ.is_none()
+            && !matches!(typ, Type::Unknown | Type::Any | Type::Uninitialized)
+        {
+            ctx.error(
+                value.syntax().text_range(),
+                format!("expected list, found {typ}"),
+            );
+        }
+        element_typ
     }
 
     pub(super) fn index_values_and_check_types(
